@@ -4,7 +4,8 @@ name="$1"; shift
 cd /repo && git apply /verif/seeded/$name/patch.diff || exit 2
 cd /verif
 for pid in "$@"; do
-  out=$(./check $pid --tier quick 2>&1 | grep -v NOT-CHECKED)
-  echo "[$name] $pid exit=$? :: $(echo "$out" | grep -E 'VIOLATION|KNOWN' | head -3 | tr '\n' ' ') :: $(echo "$out" | tail -1)"
+  out=$(./check $pid --tier quick 2>&1); rc=$?
+  out=$(echo "$out" | grep -v NOT-CHECKED)
+  echo "[$name] $pid exit=$rc :: $(echo "$out" | grep -E 'VIOLATION|KNOWN' | head -3 | tr '\n' ' ') :: $(echo "$out" | tail -1)"
 done
 git -C /repo checkout -- . 
